@@ -149,7 +149,7 @@ def unknown_field(rng):
 class C18(Prop):
     id = "C18"
     props = "C18_Props"
-    coq_files = ("Base", "C18_Model", "C18_Spec", "C18_Proofs", "C18_Instances", "C18_Props")
+    coq_files = ("Base", "C18_Model", "C18_Spec", "C18_Proofs", "C18_Instances", "C18_Hist", "C18_Props")
     models = ("C18_Model",)
     packages = {"int": "internal", "gu": "internal/grpcutil"}
     kinds = {"c18.err_connect": "int", "c18.err_go": "int", "c18.http": "int", "c18.codec_rt": "int", "c18.codec_unknown": "int",
@@ -164,7 +164,15 @@ class C18(Prop):
             "every byte 0..255 for ShouldEscapeByteInMessage and alone/in context for PercentEncodeMessage, random strings, "
             "all strings <=4 over {%,4,a,G,g,+, } for the decoder; all strings <=5 over {Q,/,=,LF,-} for DecodeBinaryHeader; "
             "message trees laid over ClientCompatRequest/RawHTTPRequest/StreamContents/StreamItem/MessageContents/Any with unknown "
-            "fields (5 wire types) injected at depth 0-5 for both strict codecs. non-trivial = result longer than a tag")
+            "fields (5 wire types) injected at depth 0-5 for both strict codecs. Details of 13 registered types (conformance messages, google.protobuf "
+            "wrappers, Duration, Struct, google.rpc.ErrorInfo; linked into the test binaries) in VALID NON-CANONICAL encodings (fields permuted, "
+            "defaults written out, singular field twice, packed/unpacked/split repeated, unknown fields, over-long varints) through all error kinds, "
+            "compared byte for byte. Histories: c18.codec_hist - ONE message object (ClientCompatRequest tree or google.protobuf.Struct = map values) "
+            "changed in place in a nested message / list / map value between 2-5 Size/Marshal/MarshalAppend/MarshalStable calls, every output decoded "
+            "and compared with the current value and with a fresh build; c18.alias_http / c18.alias_md - for AddHeaders, AddTrailers, "
+            "ConvertToProtoHeader, ConvertProtoHeaderToMetadata, ConvertMetadataToProtoHeader: two destinations filled from one source (slices with "
+            "spare capacity), a value appended to every list of each, the source scribbled over and appended to, first destination re-read; error "
+            "kinds scribble the source error and a sibling result before the result is read. non-trivial = result longer than a tag")
     trusted_base = ("Coq 8.16.1 kernel (vm_compute used for the 256-value byte sweeps, native_compute not)",
                     "extraction (ExtrOcamlBasic only) + ocaml/driver.ml",
                     "vlib generators/comparator, Go overlay harness files (harness/C18)",
@@ -184,11 +192,16 @@ class C18(Prop):
                    "type-URL restoration is exact for canonical URLs (default prefix + name); any other URL keeps its type name and gets the default prefix",
                    "a -bin value that is not canonical base64 (padded, or not base64 at all) keeps its content and is re-encoded once, so its text may change",
                    "unknown fields inside the opaque value bytes of a google.protobuf.Any are outside the codecs' view",
-                   "ConvertMetadataToProtoHeader encodes -bin values in place: it is applied once per metadata value")
+                   "a Connect error made by ConvertProtoToConnectError keeps the Any messages of the test-case error (connect.NewErrorDetail keeps an "
+                   "*anypb.Any as it is - connect-go's API): changing those messages in place afterwards shows through; every other conversion "
+                   "returns structures of its own (checked: c18.alias_*, scribbling in the error kinds)",
+                   "explicit-memory model: every array has spare capacity (append is always in place - the worst case for sharing; the harness makes "
+                   "source slices with spare capacity); stale nested size caches are abstracted to a three-valued sizing state of the message object")
 
     level_text = ("Machine-checked proof (Coq) that the model of the six error conversions, the header<->metadata conversions, the outgoing-context "
                   "path, AddHeaders/ConvertToProtoHeader, percent-encoding and the strict codecs' own logic are lossless: round-trip laws for ALL "
-                  "inputs (17 theorems, closed under the global context), the libraries entering as quantified functions under explicit round-trip "
+                  "inputs and, for the header/metadata conversions and the codecs, for all HISTORIES in which the converted structures / message objects are "
+                  "used further (explicit-memory model: conversions_do_not_alias; codec_stateless; detail bytes handed on verbatim) (21 theorems, closed under the global context), the libraries entering as quantified functions under explicit round-trip "
                   "contracts that the extracted instances are proved to meet; the model is tied to the Go code by a differential run on every check.")
     level_note = ("Trusted: Coq kernel, extraction, OCaml driver, harness; base64/protobuf/protojson/connect are contracts (base64 instance proved and "
                   "compared with Go), grpc-go/net/url/textproto behaviour is modelled and compared; the model-code correspondence is sampled "
@@ -350,7 +363,7 @@ class C18(Prop):
                     e = [rng.randint(1, 16), [b"m"], ds]
                     yield ["c18.err_connect", e]
                     yield ["c18.err_grpc", rng.choice([0, 0, 2]), "wrapped: text", e]
-        for _ in range(2000 if quick else 60000):
+        for _ in range(15000 if quick else 90000):
             e = self.gen_perr(rng)
             yield ["c18.err_connect", e]
             yield ["c18.err_go", rng.randint(0, 2), rng.choice([b"", b"plain error", b"ctx: \xffbad"]), e]
@@ -358,11 +371,11 @@ class C18(Prop):
         # ---- header lists
         yield ["c18.md", [["X-A", ["1"]], ["x-a", ["2"]]]]
         yield ["c18.outgoing", [["Key-Bin", [b"AQID"]]]]
-        for _ in range(4000 if quick else 100000):
+        for _ in range(27000 if quick else 150000):
             hs = self.gen_headers(rng)
             yield ["c18.md", hs]
             yield ["c18.outgoing", hs]
-        for _ in range(1000 if quick else 20000):
+        for _ in range(8000 if quick else 40000):
             seen, hs = set(), []
             for h in self.gen_headers(rng):
                 if h[0] not in seen:
@@ -370,7 +383,7 @@ class C18(Prop):
                     hs.append(h)
             yield ["c18.md_back", hs]
         http_names = self.NAMES + ["x a", "x:a", "X-\u00e4", "a-b-c", "A-B-c", "x-a!", "x_a"]
-        for _ in range(1500 if quick else 20000):
+        for _ in range(13000 if quick else 50000):
             yield ["c18.http", rng.randint(0, 1), self.gen_headers(rng, http_names)]
         # ---- percent-encoding: exhaustive over bytes, then random
         for b in range(256):
@@ -380,36 +393,36 @@ class C18(Prop):
             yield ["c18.percent", bytes([b, b]) + b"ok"]
         yield ["c18.percent", b""]
         alph = [bytes(range(256)), bytes(range(32, 127)), b"%%%a0F ", b"\xc3\xa4\xe2\x98\x83%~ \x7f\x1f"]
-        for _ in range(3000 if quick else 100000):
+        for _ in range(25000 if quick else 150000):
             a = rng.choice(alph)
             yield ["c18.percent", bytes(rng.choice(a) for _ in range(rng.randint(0, 24)))]
         for n in range(0, 5 if quick else 6):
             for t in itertools.product(b"%4aGg+ ", repeat=n):
                 yield ["c18.unpercent", bytes(t)]
-        for _ in range(300 if quick else 50000):
+        for _ in range(3000 if quick else 50000):
             yield ["c18.unpercent", bytes(rng.choice(b"%%%0123456789abcdefABCDEFgG+/ \xff") for _ in range(rng.randint(0, 16)))]
         # ---- base64 oracle instance against connect's functions
         for n in range(0, 6 if quick else 8):
             for t in itertools.product(b"Q/=\n-", repeat=n):
                 yield ["c18.b64", bytes(t)]
-        for _ in range(500 if quick else 50000):
+        for _ in range(3000 if quick else 50000):
             raw = bytes(rng.randrange(256) for _ in range(rng.randint(0, 10)))
             yield ["c18.b64", raw]
             enc = base64.b64encode(raw)
             yield ["c18.b64", rng.choice([enc, enc.rstrip(b"="), enc + b"=", enc[:-1], enc.replace(b"A", b"\r\n")])]
         # ---- strict codecs
-        for _ in range(1000 if quick else 20000):
+        for _ in range(8000 if quick else 40000):
             for codec in (0, 1):
                 yield ["c18.codec_rt", codec, self.gen_tree(rng, codec == 1, 0.0)]
-        for _ in range(1500 if quick else 40000):
+        for _ in range(12000 if quick else 60000):
             for codec in (0, 1):
                 yield ["c18.codec_unknown", codec, self.gen_tree(rng, codec == 1, rng.choice([0.0, 0.1, 0.1, 0.3]))]
         # ---- codec histories: one message object changed in place (nested message, list element, map value) between encodings
-        for _ in range(1500 if quick else 30000):
+        for _ in range(12000 if quick else 50000):
             for codec in (0, 1):
                 yield ["c18.codec_hist", codec, rng.randint(0, 1), self.gen_history(rng, codec == 1)]
         # ---- the converted structures are used further: source scribbled, sibling destination appended to
-        for _ in range(3000 if quick else 60000):
+        for _ in range(24000 if quick else 100000):
             hs = self.gen_headers(rng, http_names)
             yield ["c18.alias_http", rng.randint(0, 2), hs, rng.choice([b"first-extra", b"", b"1"]), rng.choice([b"second-extra", b"2"])]
             hs = self.gen_headers(rng)
